@@ -2,7 +2,6 @@
 //@use prelude/head.rs
 // not under contract: the rest of the yacc grammar parser (totality judged by the c12 yacc sweep when one changes)
 //@pin file=cfgrammar/src/lib/yacc/parser.rs fn=build sha=662f52b88f00489d
-//@pin file=cfgrammar/src/lib/yacc/parser.rs fn=add_duplicate_occurrence sha=6fccdba6cf4c19b3
 //@pin file=cfgrammar/src/lib/yacc/ast.rs fn=add_programs sha=fb76c16f98745b8d
 //@pin file=cfgrammar/src/lib/yacc/ast.rs fn=set_programs sha=a672bc6e20d019f4
 //@pin file=cfgrammar/src/lib/yacc/ast.rs fn=get_rule sha=3287f2f00d7e97fc
